@@ -4,4 +4,4 @@
 From Coq Require Import ExtrOcamlBasic.
 From FF Require Import Sx Checks.
 Extraction Language OCaml.
-Extraction "model.ml" run_case run_monitor.
+Extraction "model.ml" run_case run_monitor run_explain.
